@@ -29,6 +29,11 @@ Definition send_sync (len : N) : bool := (len <=? (16 * 1024)).
 
 (* both compressed paths: rsv argument; payload = (compress + flush(FULL if notakeover else SYNC)).removesuffix(WS_DEFLATE_TRAILING) *)
 Definition RSV1_COMPRESSED : N := 64.
+Definition QUEUE_LIMIT_FACTOR : N := 2.
+(* feed_data: after `self._size += size`: pause when this holds and reading is not paused *)
+Definition queue_pause_test (size limit : N) : bool := (limit <? size).
+(* _read_from_buffer: after the pop and `self._size -= size`: resume when this holds and reading is paused *)
+Definition queue_resume_test (size limit : N) : bool := (size <? limit).
 Definition DEFLATE_TRAILING : list N := [0; 0; 255; 255].
 (* _get_compressor shape checked: truthy per-message `compress` -> NEW ZLibCompressor(wbits=-compress); else the shared one, created once with wbits=-self.compress *)
 Definition override_uses_fresh_compressor : bool := true.
